@@ -55,6 +55,22 @@ BlockTab ==
    descR |-> << D("GET", <<"pdr">>, "", FALSE, "", ""), D("Description", <<>>, "", FALSE, "d1", ""),
                 D("RESP", <<>>, "", FALSE, "obj", "200"), D("PUT", <<"pdr">>, "", FALSE, "", ""), D("Description", <<>>, "", FALSE, "d2", ""),
                 D("RESP", <<"any">>, "", FALSE, "", "404") >>,
+   \* a Description of several lines
+   descM |-> << D("GET", <<"pdm">>, "", FALSE, "", ""), D("Description", <<>>, "", FALSE, "d3", ""), D("RESP", <<"any">>, "", FALSE, "", "200") >>,
+   \* a union written without blanks, and a type that inherits it through allOf (needs t1 t2; t6 needs t5)
+   t5    |-> << D("TYPE", <<"@t5">>, "", FALSE, "objun", "") >>,
+   t6    |-> << D("TYPE", <<"@t6">>, "", FALSE, "objall", "") >>,
+   \* JSON-RPC with the Protocol directive written after the methods
+   rpcPL |-> << D("URL", <<"prl">>, "", FALSE, "", ""), D("Method", <<"bar">>, "", FALSE, "", ""),
+                D("Params", <<>>, "", FALSE, "obj", ""), D("Result", <<>>, "", FALSE, "arr", ""),
+                D("Protocol", <<"json-rpc-2.0">>, "", FALSE, "", "") >>,
+   \* a query parameter and a request header that have the name of the path parameter
+   qsame |-> << D("GET", <<"pqs">>, "", FALSE, "", ""), D("Query", <<>>, "", FALSE, "pid", ""), D("RESP", <<"any">>, "", FALSE, "", "200"),
+                D("POST", <<"pqs">>, "", FALSE, "", ""), D("Request", <<"any">>, "", FALSE, "", ""), D("Headers", <<>>, "", FALSE, "pid", ""),
+                D("RESP", <<"any">>, "", FALSE, "", "200") >>,
+   \* a quoted path with a blank in it, stand-alone and as a URL with a method below
+   blankP|-> << D("GET", <<"psp">>, "", FALSE, "", ""), D("RESP", <<"any">>, "", FALSE, "", "200") >>,
+   blankU|-> << D("URL", <<"psp">>, "", FALSE, "", ""), D("POST", <<>>, "", FALSE, "", ""), D("RESP", <<"any">>, "", FALSE, "", "200") >>,
    \* a response and a request whose bodies are given by child Body directives
    respB |-> << D("POST", <<"prb">>, "", FALSE, "", ""), D("Request", <<>>, "", FALSE, "", ""), D("Body", <<"any">>, "", FALSE, "", ""),
                 D("RESP", <<>>, "", FALSE, "", "200"), D("Body", <<"@t1">>, "", FALSE, "", ""),
